@@ -67,6 +67,8 @@ def gen_cfg(rng, allow_extra=True):
       ju.append((rng.sample(cand, k), rng.choice(["valley", "peak"])))
   bmode = rng.choice(["none", "none", "min", "max", "both"])
   a = Fraction(rng.randint(-8, 8), 4)
+  if rng.random() < 0.2:
+    a = Fraction(0)     # falsy bound: `if output_min:` style slips only show at exactly 0
   lo = a if bmode in ("min", "both") else None
   hi = a + Fraction(rng.randint(1, 16), 4) if bmode in ("max", "both") else None
   return dict(sizes=sizes, mono=mono, ew=ew, tz=tz, uni=uni, md=md, rd=rd, jm=jm, ju=ju, lo=lo, hi=hi)
